@@ -14,10 +14,11 @@ COMMON_NOTE = ("Trusted base: Lean 4.33 kernel (axioms audited per theorem on ev
                "no sorry/admit/native_decide/bv_decide/own axioms), tools/translate.py + tools/translate_loops.py (Python ast -> Lean, "
                "restricted subset, fail closed), the Python correspondence harness and the Lean compiler for the executable driver. "
                "The numba loop kernels _group_by_reduce, reduce_array_pair, _find_nth, _find_first_or_last_n, _cumulative_reduce, "
-               "_build_group_sorted_indexer_numba, _rolling_sum_or_mean_1d, _rolling_shift_or_diff_1d, _ema_grouped, _ema_grouped_timed "
+               "_build_group_sorted_indexer_numba, _weight_code_sum, _rolling_sum_or_mean_1d, _rolling_shift_or_diff_1d, "
+               "_rolling_max_or_min_1d with min_or_max_and_position, _ema_grouped, _ema_grouped_timed, _get_first_non_null, _nb_reduce "
                "are translated from the source on every run (Generated/Loops.lean) and proved equal to the hand-written models "
-               "(LoopBridge/*.lean). Modelled rather than verified: the remaining loops (rolling max/min, monotonic factorization, "
-               "nanops) and the pandas/numpy/arrow glue (hand model tied by differential execution), IEEE rounding (exact arithmetic on "
+               "(LoopBridge/*.lean). Modelled rather than verified: the remaining loops (monotonic factorization, "
+               "_combine_factorizations, group_nearby_members, ungrouped EMA) and the pandas/numpy/arrow glue (hand model tied by differential execution), IEEE rounding (exact arithmetic on "
                "representable inputs; division / exp are uninterpreted functions in the translated loops), thread scheduling (any "
                "completion permutation). ")
 
@@ -59,7 +60,7 @@ CHECKS["C02"] = dict(
           "the end of the longest null-free non-decreasing prefix, one code per prefix row, labels strictly increasing, label at a row's code has the row's "
           "key; monotonic_codes_eq_iff; monotonic_null_first - for any comparison functions that agree with the key order on non-null elements. Several keys, "
           "end to end: factorize2d_codes_eq_iff - through the per-key factorizations, the mixed-radix combination and the final factorization two rows get "
-          "the same code exactly when both hold a null in some key, or neither does and they agree in every key column." " Source level (new): the counting sort _build_group_sorted_indexer_numba is translated from core.py on every run and proved correct (LoopBridge/CountingSort, source_counting_sort): with the true group sizes the segment of every group lists exactly the ascending positions of its rows, for any chunking of the codes and any mask."),
+          "the same code exactly when both hold a null in some key, or neither does and they agree in every key column." " Source level (new): the counting sort _build_group_sorted_indexer_numba is translated from core.py on every run and proved correct (LoopBridge/CountingSort, source_counting_sort): with the true group sizes the segment of every group lists exactly the ascending positions of its rows, for any chunking of the codes and any mask. _weight_code_sum likewise (LoopBridge/WeightCode, source_weight_code_sum): the null code iff ANY component code is null, the last key included, else the injective mixed-radix value."),
     note="pd.factorize / get_indexer / drop_duplicates are assumed (exercised, not proved); the chunk-pointer route is modelled (C03 chunk_route_eq_global) and tied by correspondence.",
     technique="Lean 4 proof (list induction; mixed-radix injectivity; counting-sort correctness of the translated source loop) + relations evaluated on the implementation's output for every route + model correspondence",
     design="§7 C02",
@@ -98,7 +99,7 @@ CHECKS["C09"] = dict(
           "which by window_cover / buf_mem_iff holds exactly the window's values; minOrMax_isExt characterises the scan) gives rolling_max_eq_window "
           "and rolling_min_eq_window for every history, window and min_periods >= 1. Shift / diff: rolling_shift_diff_eq_window (the value `window` "
           "group-rows earlier / the difference to it, null until then). Correspondence on numba.rolling_* and GroupBy.rolling_*/shift/diff, both "
-          "layouts, temporal exactness and time unit, boundary windows 32767/32768/40000." " Source level (new): _rolling_sum_or_mean_1d and _rolling_shift_or_diff_1d are translated from numba.py on every run and proved equal to the ring-buffer models (LoopBridge/Rolling; the mean's division is an uninterpreted function); source_rolling_sum_mean_eq_window / source_rolling_shift_diff_eq_window state the window specification about the translated source. The extremum kernel _rolling_max_or_min_1d is not yet translated (hand model + correspondence incl. windows 17/130/200 over many windows of rows)."),
+          "layouts, temporal exactness and time unit, boundary windows 32767/32768/40000." " Source level (new): _rolling_sum_or_mean_1d and _rolling_shift_or_diff_1d are translated from numba.py on every run and proved equal to the ring-buffer models (LoopBridge/Rolling; the mean's division is an uninterpreted function); source_rolling_sum_mean_eq_window / source_rolling_shift_diff_eq_window state the window specification about the translated source., and the extremum kernel _rolling_max_or_min_1d with its helper min_or_max_and_position (a while loop with a declared and proved iteration bound) likewise: source_rolling_max_min_eq_window. Correspondence includes windows 17/130/200 over up to 14 windows of rows."),
     note="index_by_groups=True delegates to pandas rolling (assumed); counters are unbounded in the model (source widths extracted and checked >= 16 bits, boundary windows exercised); the shift / diff theorem is stated for the float view (null = NaN), temporal values are compared by the correspondence run.",
     technique="Lean 4 proof (ring-buffer invariants for the sum and the extremum kernel by induction over the history + per-group lift) + source-to-Lean translation of the sum/mean and shift/diff loops with proved bridge + differential correspondence",
     design="§7 C09",
@@ -184,9 +185,11 @@ CHECKS["C20"] = dict(
           "proved equal to the model), the sum of chunk sums / counts equals the sum / count; max is member and upper bound; bools_to_categorical: bit i of "
           "the row mask is set iff column i is true, so the label names exactly the true columns (for any number of columns); pretty_cut: with sorted edges "
           "searchsorted puts x into (edge[i-1], edge[i]]. Correspondence: nanops.* vs NumPy / exact rational oracles and the Lean reduce_1d model over "
-          "exhaustive null placements x threads 1..8, 2-D axes, nb_dot over ndarray/pandas/polars, all small boolean frames, edge grids incl. values on edges."),
+          "exhaustive null placements x threads 1..8, 2-D axes, nb_dot over ndarray/pandas/polars, all small boolean frames, edge grids incl. values on edges. "
+          "Source level (new): _nb_reduce and _get_first_non_null (with the dtype dispatch of its numba overload) are translated from nanops.py / util.py on "
+          "every run and proved equal to nbReduce / firstNonNull on all six paths (LoopBridge/NbReduce; source_nb_reduce_skipna, source_nb_reduce_initial)."),
     note="The executable model reduce1d itself is proved end to end: reduce1d_sum_threads, reduce1d_count_threads (any thread count, float view, = NumPy nansum / count of non-null) and reduce1d_extremum_eq_numpy (max / min, any thread count whose array_split has no empty chunk, = nanmax / nanmin, NaN when all null); an EMPTY chunk (n_threads > len) makes the source read arr[0] of an empty array (undefined in the model) - exercised, no wrong result observed; mean/var/std are exact only in rational arithmetic (float results compared to 1e-9).",
-    technique="Lean 4 proof (fold/chunk homomorphism, testBit induction, sorted-search lemma) + reducer translation + differential correspondence against NumPy",
+    technique="Lean 4 proof (fold/chunk homomorphism, testBit induction, sorted-search lemma) + source-to-Lean translation of the reducers and of _nb_reduce / _get_first_non_null with proved bridge + differential correspondence against NumPy",
     design="§7 C20",
 )
 
